@@ -89,6 +89,20 @@ class ModelElement(ABC):
         if prop_name is not None:
             self.topo.graph_model.unset_node_property(node_id=self.node_id, prop_name=prop_name)
 
+    def _update_properties(self, prop_dict: dict, names) -> None:
+        """
+        Write the graph properties produced from a scratch sliver on which only the
+        properties in names were set. A sliver conversion always emits the stitch flag
+        (False on a fresh sliver), so it is written only when it is one of the
+        properties being set - otherwise setting any property would reset it.
+        :param prop_dict:
+        :param names:
+        :return:
+        """
+        if 'stitch_node' not in names:
+            prop_dict.pop(ABCPropertyGraph.PROP_STITCH_NODE, None)
+        self.topo.graph_model.update_node_properties(node_id=self.node_id, props=prop_dict)
+
     def __repr__(self):
         labels, node_props = self.topo.graph_model.get_node_properties(node_id=self.node_id)
         # filter out some properties we don't need
